@@ -69,6 +69,30 @@ def detectors_alive(ctx, rule, which):
     if "to_f64" in which:
         n_ = sum(1 for b in f.mir.values() for bi, t in b.calls() if callee_is(t, trait="MomTropFloat", name="to_f64"))
         res["to_f64"] = n_ >= 1
+    if "panic" in which:
+        from .rules.c12 import panic_sites
+        b = [x for x in f.mir.values() if x.path.endswith("panicky")]
+        kinds = set(k_ for k_, _w, _b in panic_sites(f, b[0])) if b else set()
+        res["panic"] = {"assert:BoundsCheck", "call:unwrap", "panic"} <= kinds
+    if "value-panic" in which or "err-site" in which:
+        from . import pat
+        b = [x for x in f.mir.values() if x.path.endswith("value_guarded")]
+        res["err-site"] = bool(b) and len(pat.result_ctor_sites(b[0], "Err")) == 1
+        ok = False
+        if b:
+            from .flow import Flow
+            from .roles import Roles
+            from . import cfg
+            fl = Flow(f, Roles(f), follow_control=False, ignore_len=True)
+            dd = fl.deps_of(b[0])
+            tcd = cfg.transitive_control_deps(b[0], acyclic=True)
+            for pb in pat.panic_blocks(b[0]):
+                for (sb, tgt) in tcd[pb]:
+                    t = b[0].blocks[sb]["term"]
+                    if t["k"] == "switch" and t["discr"]["k"] in ("copy", "move"):
+                        if any(x[0] == "param" and x[1] == 1 for x in dd["close"](("n", t["discr"]["place"]["l"], None))):
+                            ok = True
+        res["value-panic"] = ok
     for k in sorted(which):
         ctx.ob(rule, "detector `%s` fires on the fixtures crate (zero-count rule is not vacuous)" % k, bool(res.get(k)), "fixtures", "detector-dead:" + k,
                detail="the detector found nothing in fixtures/src/lib.rs where a violating construct is planted")
